@@ -10,6 +10,8 @@ A unit is a template (contracts/verus/<unit>.rs) that is ordinary Verus text plu
     //@ proof-before `<statement prefix>`: <proof text on one line>
     //@ proof-after `<statement prefix>`: <proof text inserted after the end of that statement>
     //@ invariant[<loop ordinal>]: <expr>
+    //@ invariant_except_break[<loop ordinal>]: <expr>
+    //@ loop-ensures[<loop ordinal>]: <expr>
     //@ decreases[<loop ordinal>]: <expr>
     //@ strip-vis
     //@end
@@ -115,6 +117,7 @@ def extract_fn(scratch, kv, lines, report):
     body = s[bo:bc + 1]
     ret = None
     requires, ensures, substs, proofs, invs, decs = [], [], [], [], {}, {}
+    xinvs, lens = {}, {}
     proofs_after = []
     strip_vis = False
     rename = None
@@ -144,6 +147,12 @@ def extract_fn(scratch, kv, lines, report):
         elif t.startswith("invariant["):
             m = re.match(r"invariant\[(\d+)\]:\s*(.*)$", t)
             invs.setdefault(int(m.group(1)), []).append(m.group(2))
+        elif t.startswith("invariant_except_break["):
+            m = re.match(r"invariant_except_break\[(\d+)\]:\s*(.*)$", t)
+            xinvs.setdefault(int(m.group(1)), []).append(m.group(2))
+        elif t.startswith("loop-ensures["):
+            m = re.match(r"loop-ensures\[(\d+)\]:\s*(.*)$", t)
+            lens.setdefault(int(m.group(1)), []).append(m.group(2))
         elif t.startswith("decreases["):
             m = re.match(r"decreases\[(\d+)\]:\s*(.*)$", t)
             decs[int(m.group(1))] = m.group(2)
@@ -186,14 +195,18 @@ def extract_fn(scratch, kv, lines, report):
         sig = sig.replace(a, b)
         body = body.replace(a, b)
     # invariants / decreases (insert from last loop to first so indices stay valid)
-    if invs or decs:
+    if invs or decs or xinvs or lens:
         opens = _loop_headers(body)
-        for k in sorted(set(list(invs) + list(decs)), reverse=True):
+        for k in sorted(set(list(invs) + list(decs) + list(xinvs) + list(lens)), reverse=True):
             if k >= len(opens):
                 raise Undecided("extract: loop #%d not found in %s" % (k, kv["fn"]))
             ins = ""
+            if k in xinvs:
+                ins += "\n        invariant_except_break\n" + "".join("            %s,\n" % e for e in xinvs[k])
             if k in invs:
                 ins += "\n        invariant\n" + "".join("            %s,\n" % e for e in invs[k])
+            if k in lens:
+                ins += "        ensures\n" + "".join("            %s,\n" % e for e in lens[k])
             if k in decs:
                 ins += "        decreases %s,\n" % decs[k]
             body = body[:opens[k]] + ins + "    " + body[opens[k]:]
@@ -259,7 +272,8 @@ def extract_fn(scratch, kv, lines, report):
         "item": "fn " + kv["fn"], "file": rel, "source_lines": [rsrc.line_of(s, ls), rsrc.line_of(s, bc)],
         "substitutions": ["%s => %s" % ab for ab in substs], "dropped_statements": dropped,
         "requires": requires, "ensures": ensures,
-        "inserted_loop_invariants": {str(k): v for k, v in invs.items()},
+        "inserted_loop_invariants": {str(k): v + ["(except at break) " + e for e in xinvs.get(k, [])] + ["(loop ensures) " + e for e in lens.get(k, [])]
+                                     for k, v in {**{j: [] for j in list(xinvs) + list(lens)}, **invs}.items()},
         "inserted_proof_lines": [t for _, t in proofs] + [t for _, t in proofs_after],
     })
     return sig + spec + body + "\n"
